@@ -611,3 +611,73 @@ def structured_probes(node, prow, rng, per_edge=6):
             c = evv(t["around"], Q, n)
             p = _rot_pts(p[:, None, :], ang, c)[:, 0, :]
     return {base["var"]: p}
+
+
+# --------------------------------------------- reference boundary sampler
+def _prim_boundary(node, one, N, rng):
+    """N points uniform w.r.t. arclength/area on the boundary of a primitive (world coords)."""
+    k = node["k"]
+    if k == "circ":
+        c = evv(node["c"], one, 1)[0]
+        r = ev(node["r"], one, 1)[0]
+        g = rng.normal(size=(N, 2))
+        g /= np.linalg.norm(g, axis=1, keepdims=True)
+        return c + r * g
+    if k == "sph":
+        c = evv(node["c"], one, 1)[0]
+        r = ev(node["r"], one, 1)[0]
+        g = rng.normal(size=(N, 3))
+        g /= np.linalg.norm(g, axis=1, keepdims=True)
+        return c + r * g
+    if k in ("par", "tri", "poly"):
+        v = corners(node, one, 1)[0] if k != "poly" else np.asarray(node["verts"], float)
+        a, b = v, np.roll(v, -1, axis=0)
+        ln = np.linalg.norm(b - a, axis=1)
+        e = rng.choice(len(v), size=N, p=ln / ln.sum())
+        s = rng.random(N)[:, None]
+        return a[e] + s * (b[e] - a[e])
+    if k == "iv":
+        a, b = ev(node["a"], one, 1)[0], ev(node["b"], one, 1)[0]
+        return np.where(rng.random(N) < 0.5, a, b)[:, None]
+    raise ValueError(k)
+
+
+def _leaf_boundaries(node, one):
+    """[(sample(N, rng) -> world points, length)] for every primitive leaf of a solid."""
+    k = node["k"]
+    if k in ("circ", "sph", "par", "tri", "poly", "iv"):
+        ln = float(measure({"k": "bnd", "d": node}, one, 1)[0])
+        return [((lambda N, rng, _n=node: _prim_boundary(_n, one, N, rng)), ln)]
+    if k in ("union", "cut", "inter"):
+        return _leaf_boundaries(node["a"], one) + _leaf_boundaries(node["b"], one)
+    if k in ("transl", "rot"):
+        out = []
+        for fn, ln in _leaf_boundaries(node["d"], one):
+            if k == "transl":
+                v = evv(node["v"], one, 1)[0]
+                out.append(((lambda N, rng, _f=fn, _v=v: _f(N, rng) + _v), ln))
+            else:
+                ang = ev(node["ang"], one, 1)
+                c = evv(node["around"], one, 1)
+                out.append(((lambda N, rng, _f=fn: _rot_pts(_f(N, rng)[None, :, :], ang, c)[0]), ln))
+        return out
+    raise ValueError(k)
+
+
+def boundary_sample(solid, params_row, N, rng):
+    """~N reference points uniform (arclength) on the boundary of a solid expression."""
+    one = {v: np.asarray(val, float).reshape(1, -1) for v, val in params_row.items()}
+    if not one:
+        one = {"_": np.zeros((1, 1))}
+    leaves = _leaf_boundaries(solid, one)
+    total = sum(ln for _, ln in leaves)
+    var = space(solid)[0][0]
+    pts = []
+    for fn, ln in leaves:
+        n = max(1, int(round(N * ln / total)))
+        p = fn(n, rng)
+        P = {v: np.repeat(val, len(p), axis=0) for v, val in one.items()}
+        P[var] = p
+        keep = np.abs(margin(solid, P)) <= 1e-7
+        pts.append(p[keep])
+    return {var: np.concatenate(pts, axis=0)}
